@@ -179,7 +179,11 @@ private:
 	m_base_absval.weak_assign(ghost_x, ghost_y);	
       } 
     } else {
-      if (can_rewrite_linear_expression(e, coefficient)) {
+      // The base assignment has been already done: if e mentions x
+      // then it would be evaluated with the new value of x.
+      bool x_in_e = std::any_of(e.variables_begin(), e.variables_end(),
+				[&x](const variable_t &v) { return v == x; });
+      if (!x_in_e && can_rewrite_linear_expression(e, coefficient)) {
 	if (!weak) {
 	  m_base_absval.assign(ghost_x,
 			       rewrite_linear_expression(e, coefficient));
@@ -213,8 +217,9 @@ private:
         variable_t ghost_y = get_ghost_var(y, coefficient);
         m_base_absval.assign(ghost_x, ghost_y);
         return;
-      } else if (z == tracked_coefficient) {
+      } else if (z == tracked_coefficient && !(x == y)) {
         // rewrite("x := COEF * y") = "x/COEF := y"
+        // (if x is y then y has been already overwritten)
         m_base_absval.assign(ghost_x, y);
         return;
       }
